@@ -9,7 +9,8 @@ use crate::{
     convert::STD_NUM_NONZERO_PREFIX,
     type_entry::{
         DefaultKind, EnumTagType, StructProperty, StructPropertyRename, StructPropertyState,
-        TypeEntry, TypeEntryDetails, TypeEntryEnum, TypeEntryNewtype, TypeEntryStruct, Variant,
+        TypeEntry, TypeEntryDetails, TypeEntryEnum, TypeEntryNewtype, TypeEntryNewtypeConstraints,
+        TypeEntryStruct, Variant,
         VariantDetails, WrappedValue,
     },
     util::{sanitize, Case},
@@ -171,8 +172,43 @@ impl TypeEntry {
                     .ok_or_else(|| Error::invalid_value())
             }
 
-            TypeEntryDetails::Newtype(TypeEntryNewtype { type_id, .. }) => {
-                validate_type_id(type_id, type_space, default)
+            TypeEntryDetails::Newtype(TypeEntryNewtype {
+                type_id,
+                constraints,
+                ..
+            }) => {
+                let kind = validate_type_id(type_id, type_space, default)?;
+
+                // The value must also satisfy the constraints that the
+                // newtype's own constructors enforce.
+                let valid = match constraints {
+                    TypeEntryNewtypeConstraints::None => true,
+                    TypeEntryNewtypeConstraints::EnumValue(values) => {
+                        values.iter().any(|value| &value.0 == default)
+                    }
+                    TypeEntryNewtypeConstraints::DenyValue(values) => {
+                        !values.iter().any(|value| &value.0 == default)
+                    }
+                    TypeEntryNewtypeConstraints::String {
+                        max_length,
+                        min_length,
+                        pattern,
+                    } => default.as_str().map_or(false, |s| {
+                        let len = s.chars().count();
+                        max_length.map_or(true, |max| len <= max as usize)
+                            && min_length.map_or(true, |min| len >= min as usize)
+                            && pattern.as_ref().map_or(true, |pattern| {
+                                regress::Regex::new(pattern)
+                                    .map_or(true, |regex| regex.find(s).is_some())
+                            })
+                    }),
+                };
+
+                if valid {
+                    Ok(kind)
+                } else {
+                    Err(Error::invalid_value())
+                }
             }
             TypeEntryDetails::Option(type_id) => {
                 if let serde_json::Value::Null = default {
